@@ -622,6 +622,37 @@ func GenTrip(rng *rand.Rand, thorough bool, emit func(*Sx)) {
 			}
 		}
 	}
+	// the same address given to Rcpt more than once in a transaction: an LMTP server answers once per RCPT command
+	for _, cb := range []bool{true, false} {
+		for variant := 0; variant < 3; variant++ {
+			cfg := fullCfg(true)
+			cfg.LMTPSession = true
+			sc := Script{}
+			var calls []TripCall
+			for t := 0; t < 2; t++ {
+				calls = append(calls, TripCall{Kind: "mail", Arg: fmt.Sprintf("d%d@x", t)})
+				addrs := [][]string{{"dup@x", "dup@x"}, {"a@x", "dup@x", "b@x", "dup@x"}, {"dup@x", "other@x", "dup@x", "dup@x"}}[variant]
+				p := DefaultPlan()
+				if t == 1 {
+					p.Ret = BSmtp(450, [3]int{4, 2, 0}, "later")
+				}
+				for range addrs {
+					sc.Rcpt = append(sc.Rcpt, BNil)
+				}
+				for _, a := range addrs {
+					calls = append(calls, TripCall{Kind: "rcpt", Arg: a})
+				}
+				sc.Data = append(sc.Data, p)
+				kind := "lmtpdata"
+				if !cb && t == 1 {
+					kind = "data"
+				}
+				calls = append(calls, TripCall{Kind: kind, Parts: [][]byte{[]byte("msg\r\n")}, Callback: cb, Closes: 1})
+			}
+			calls = append(calls, TripCall{Kind: "noop"}, TripCall{Kind: "quit"})
+			emit(RunTrip(TripCase{Cfg: cfg, Script: sc, LMTP: true, Calls: calls, Extra: []*Sx{L(A("focus"), A("C18"))}}))
+		}
+	}
 	// one connection, several transactions, each finished through a different entry point
 	kinds := []struct {
 		kind string
